@@ -716,7 +716,11 @@ class DataT:
             elif isinstance(it, (list, np.ndarray)) or hasattr(it, 'as_index'):
                 arr = it.as_index() if hasattr(it, 'as_index') else np.asarray(it)
                 if arr.dtype.kind == 'f':
-                    raise PyExc('IndexError', 'tensors used as indices must be long, int, byte or bool tensors')
+                    # torch converts a float numpy index array to long (observed with torch 2.x: mypad's
+                    # np.outer(xe, ones) index arrays work); non-integral values would be truncated
+                    if not np.all(arr == np.floor(arr)):
+                        raise AnalysisError('unsupported', 'non-integral float index array')
+                    arr = arr.astype(np.int64)
                 if arr.dtype.kind not in 'iu':
                     raise AnalysisError('unknown-construct', 'index array of dtype %s' % arr.dtype)
                 view = False
